@@ -278,6 +278,20 @@ func runC11(e *Env) {
 		}
 		if (rec.Route == "p") != should {
 			t.Fail("servehttp-"+map[bool]string{true: "not-reached-by-equivalent-path", false: "reached-by-inequivalent-path"}[should], "ServeHTTP(GET %q): route %q (normal form %q, strict=%v) ran=%v, expected %v", Q, P, wantPath, strict, rec.Route == "p", should)
+			return
+		}
+		// the same literal text as the prefix of a route with a variable: reached by exactly the same prefixes
+		if G == "" && wantPath != "/" && !strings.HasSuffix(wantPath, "/") && !strings.HasSuffix(nq, "/") {
+			rd := rux.New(c11Opts(strict, false)...)
+			var dyn *rux.Route
+			if _, panicked := catch(func() { dyn = rd.GET(wantPath+"/{id}", namedHandler("dyn")) }); panicked || dyn == nil {
+				return
+			}
+			got, ps, _ := rd.Match("GET", nq+"/7")
+			t.Count("equivalence.dynamic_sibling", 1)
+			if (got == dyn) != should || (should && ps["id"] != "7") {
+				t.Fail("dynamic-route-prefix-not-literal", "route %q and request %q: reached=%v (params %v), expected reached=%v with id=7 (the literal part %q is compared character by character)", wantPath+"/{id}", nq+"/7", got == dyn, ps, should, wantPath)
+			}
 		}
 	})
 
@@ -321,6 +335,12 @@ func runC11(e *Env) {
 					router.GET(ne, namedHandler("escaped-spelling"))
 				}
 				router.GET("/d/{v}", namedHandler("dyn"))
+				// an internal redirect to the same URL: the request is dispatched again through HandleContext
+				router.GET("/redispatch-entry", func(c *rux.Context) {
+					cp := *u
+					c.Req.URL = &cp
+					c.Router().HandleContext(c)
+				})
 			}); panicked {
 				t.Fail("registration-panics", "registering %q / %q panicked: %v", nd, ne, pv)
 				return
@@ -343,6 +363,19 @@ func runC11(e *Env) {
 			if rec.Route != want {
 				t.Fail("wrong-path-source", "request target %q (URL.Path %q, EscapedPath %q), UseEncodedPath=%v strict=%v: expected the route registered under the %s, observed route %q status %d", target, dec, esc, encoded, strict, want, rec.Route, rec.Status())
 				return
+			}
+			// the same URL reached through an internal re-dispatch: same path source, same route
+			if nd != "/redispatch-entry" && ne != "/redispatch-entry" {
+				rrec, rpv, rpan := Serve(router, NewReq("GET", "/redispatch-entry"))
+				if rpan {
+					t.Fail("servehttp-panics", "re-dispatch to %s panicked: %v", target, rpv)
+					return
+				}
+				t.Count("pathsource.redispatched", 1)
+				if rrec.Route != want {
+					t.Fail("wrong-path-source-on-redispatch", "request re-dispatched (HandleContext) to %q (URL.Path %q, EscapedPath %q), UseEncodedPath=%v strict=%v: expected the route registered under the %s as for a direct request, observed route %q status %d", target, dec, esc, encoded, strict, want, rrec.Route, rrec.Status())
+					return
+				}
 			}
 			// the dynamic route sees the value from the same source
 			router2 := rux.New(c11Opts(strict, encoded)...)
